@@ -69,7 +69,7 @@ impl Property for C15 {
                 (crate::util::wal_number(&tracer.cur_name).unwrap_or(0), tracer.cur_off)
             };
             let step = exec.step_concrete(cop)?;
-            exec.check_outcome(&step)?;
+            exec.usable_or_skip(&step)?;
             if matches!(step.cop, COp::Restart { .. } | COp::Persist { .. }) {
                 continue;
             }
